@@ -3,6 +3,13 @@ import os, sys, json, subprocess, struct, shutil, threading
 HERE = os.path.dirname(os.path.abspath(__file__))
 from engine import REPO, WORK_ROOT, tree_digest
 
+def _die_with_parent():
+    # a replayed input may loop forever (that is what the 20 s timeout detects): never leave such a child behind
+    try:
+        import ctypes, signal
+        ctypes.CDLL('libc.so.6', use_errno=True).prctl(1, signal.SIGKILL)      # PR_SET_PDEATHSIG
+    except Exception: pass
+
 class Oracle:
     def __init__(self, work=None):
         self.work = work or os.path.join(WORK_ROOT, 'oracle_' + tree_digest(REPO))
@@ -40,7 +47,7 @@ class Oracle:
     def start(self):
         if self.proc is None:
             self.build()
-            self.proc = subprocess.Popen([self.exe()], stdin=subprocess.PIPE, stdout=subprocess.PIPE, text=True, bufsize=1)
+            self.proc = subprocess.Popen([self.exe()], stdin=subprocess.PIPE, stdout=subprocess.PIPE, text=True, bufsize=1, preexec_fn=_die_with_parent)
 
     def ask(self, op, *args, timeout=20.0):
         import select
